@@ -104,3 +104,7 @@ CLAIMED["C12"] = (
  "ordering lint over emission sequences of the code generator (function epilogue, register overwrite, generated OnFree callbacks) and shape check of the runtime's Release loop in the embedded WAT",
  "Decides the release side: genFunction releases every RC register after the body and after pushing the results; stores into an existing register use the releasing pop; Block.OnFree / Struct.genRawFree / Struct.OnFree / container forwarders release every referenced member; Block.Release runs the free callback once per item, advancing by the item size, before freeing. Does not decide absence of leaks in emitted programs, cycles, or allocator reuse.",
  AST_BASE)
+CLAIMED["C14"] = (
+ "table agreement with the Go standard library sources in GOROOT: one literal/constant evaluator (go/constant over go/ast) applied to the package-level constants and literal tables of each ported package (Wa side read with the repository's parser, value expressions re-read as Go expressions) and of the Go package of the same import path; frozen list of the instances that were equal when the rule was armed",
+ "Decides that 214 named constants and literal tables of the ported packages (bit tables, UTF-8/UTF-16 classification constants, CRC polynomials, hash primes, hex tables, calendar tables, float formatting tables ...) still have Go's values. Does not decide any function body or the behaviour of the ports on inputs.",
+ "trusted: go/parser, go/constant, GOROOT sources of the installed Go 1.23.5 as the oracle, the repository's Wa parser as front end")
